@@ -473,19 +473,17 @@ def r02_10(ctx, rr):
             if lets:
                 et = lets[0]["init"]
         et = et if et is not None else end
-        # clamped: a `.min(<number of words>)` / `min(.., <number of words>)` at the top of the expression
+        # clamped: min(.., <number of words>) at the top of the end's term (method or function form, either order)
         txt_ok = False
-        if et.get("k") == "MethodCall" and et["name"] == "min":
-            args = [et["recv"]] + et["args"]
-            for a in args:
-                ta = T.term(a)
-                # number of words: a local defined as ceil(len / 64), or len of the backend
-                if a.get("k") == "Path" and a.get("res") == "local":
-                    ls = [x for x in walk(nb.body) if x.get("k") == "LetStmt" and x["pat"].get("k") == "PBind" and x["pat"]["id"] == a["id"] and "init" in x]
-                    if ls:
-                        ta = T.term(ls[0]["init"])
-                if (ta[0] == "call" and ta[1].endswith("div_ceil") and ta[2][1] in (("int", 64), ("def", "bits::bit_vec::BITS"))) or (ta[0] == "call" and ta[1].endswith("len") and mentions(ta, lambda x: x[0] == "field" and x[2] == "bits")):
-                    txt_ok = True
+        from r_guards import simple_env
+        TE = simple_env(F, nb)
+        te = TE.term(end)
+
+        def is_num_words(ta):
+            return (ta[0] == "call" and ta[1].endswith("div_ceil") and len(ta[2]) == 2 and ta[2][1] in (("int", 64), ("def", "bits::bit_vec::BITS"))) or \
+                   (ta[0] == "call" and ta[1].endswith("len") and mentions(ta, lambda x: x[0] == "field" and x[2] == "bits"))
+        if te[0] == "op" and te[1] == "min" and (is_num_words(te[2]) or is_num_words(te[3])):
+            txt_ok = True
         rr.instances += 1
         rr.ob(txt_ok, key="Select9::new:word-loop-bounded-by-num-words")
         if not txt_ok:
